@@ -545,7 +545,13 @@ where
 pub mod verif_hooks_socone {
     use super::*;
     /// the (otherwise unnameable) shape marker taken by `mul_W` / `mul_Winv`
-    pub use crate::algebra::MatrixShape;
+    pub fn matrix_shape(transpose: bool) -> MatrixShape {
+        if transpose {
+            MatrixShape::T
+        } else {
+            MatrixShape::N
+        }
+    }
 
     pub fn step_length_soc_component<T: FloatT>(x: &[T], y: &[T], αmax: T) -> T {
         _step_length_soc_component(x, y, αmax)
